@@ -142,10 +142,10 @@ def _zdt_total(z):
     return t._floor_days * NPD + t._nanosecond_of_floor_day
 
 
-@lemma({"d1": int, "n1": int, "o0": int, "o1": int, "ld": int, "ln": int}, params=[[r, c] for r in ("strict", "lenient", "first", "last")
-                                                                                  for c in ("gap", "only-first", "only-second", "both")],
+@lemma({"d1": int, "n1": int, "o0": int, "o1": int, "s0": int, "s1": int, "ld": int, "ln": int},
+       params=[[r, c] for r in ("strict", "lenient", "first", "last") for c in ("gap", "only-first", "only-second", "both")],
        budget=200, per_path=30,
-       bounds="every ZoneLocalMapping over two adjacent intervals (any transition, any offsets) with count 0, 1 or 2 consistent with the "
+       bounds="every ZoneLocalMapping over two adjacent intervals (any transition, any wall offsets, any savings in +-2h on either side) with count 0, 1 or 2 consistent with the "
               "local date-time (the mapping itself is maplocal's subject): strict raises Skipped/Ambiguous exactly for count 0/2 and "
               "returns the match otherwise; lenient returns the earlier instant when ambiguous and the skipped time shifted forward by the "
               "gap length; first/last")
@@ -156,9 +156,11 @@ def resolvers2(PC):
     want0, want1 = {"gap": (False, False), "only-first": (True, False), "only-second": (False, True), "both": (True, True)}[case]
     cnt = int(want0) + int(want1)
 
-    def h(d1, n1, o0, o1, ld, ln):
+    def h(d1, n1, o0, o1, s0, s1, ld, ln):
         host = _H()
-        zone, T = symzone.make([(d1, n1)], [o0, o1])
+        for sv in (s0, s1):
+            assume(-7200 <= sv <= 7200)
+        zone, T = symzone.make([(d1, n1)], [o0, o1], savings=[s0, s1])
         ldt, L = _ldt(host, ld, ln)
         # the four cases partition the space: which of the two intervals' local ranges contain the local date-time
         assume((L < T[0] + o0 * NS) == want0)
@@ -223,44 +225,9 @@ def startofday2(P):
     return h
 
 
-@lemma(_zone_args(2, {"td": int, "tn": int, "dd": int, "dn": int}), params=["+", "+neg"], budget=200, per_path=30,
-       bounds="ZonedDateTime + Duration (|.| <= 40 days, both signs) in every zone of 2 intervals: the new value is built from exactly "
-              "instant + duration (Instant arithmetic is C03), the zone's wall offset at that new instant, and the same calendar and zone "
-              "(recording wrapper around OffsetDateTime._ctor; instant/offset -> local value is C11.odt_ctor)")
-def zdt_plus_duration(P):
-    from pyoda_time import OffsetDateTime
-    calls = []
-    real = OffsetDateTime._ctor.__func__
+from props import zdt  # noqa: E402
 
-    def rec(cls, **kw):
-        calls.append(kw)
-        return real(cls, **kw)
-    OffsetDateTime._ctor = classmethod(rec)
-    stubs.STUBS_IN_FORCE.append("probe:OffsetDateTime._ctor wrapped to record its arguments (this lemma only)")
-
-    def h(d1, n1, o0, o1, td, tn, dd, dn):
-        host = _H()
-        zone, T = symzone.make([(d1, n1)], [o0, o1])
-        assume(symzone.LO + 45 <= td <= symzone.HI - 45)
-        assume(host._min_days + 45 <= td <= host._max_days - 45)
-        assume(0 <= tn < NPD)
-        assume(-40 <= dd <= 40)
-        assume(0 <= dn < NPD)
-        t = Instant._ctor(days=td, nano_of_day=tn)
-        z = ZonedDateTime(instant=t, zone=zone, calendar=host)
-        dur = Duration._ctor(days=dd, nano_of_day=dn)
-        if P != "+":
-            dur = -dur                                 # (the port offers no ZonedDateTime - Duration operator)
-        del calls[:]
-        r = z + dur
-        want = td * NPD + tn + (1 if P == "+" else -1) * (dd * NPD + dn)
-        if len(calls) != 1 or "instant" not in calls[0]:
-            return False
-        kw = calls[0]
-        ti = kw["instant"]._time_since_epoch
-        return (ti._floor_days * NPD + ti._nanosecond_of_floor_day == want and 0 <= ti._nanosecond_of_floor_day < NPD
-                and kw["offset"].seconds == (o0 if want < T[0] else o1) and kw.get("calendar") is host and r.zone is zone)
-    return h
+zdt.declare()
 
 
 @lemma(premise=True, params=["tzdb"], budget=300)
